@@ -1,0 +1,8 @@
+//go:build !verif
+// +build !verif
+
+package masswallet
+
+// verifPoint marks a scheduling point for the external verification harness.
+// It is a no-op unless the package is built with the "verif" tag.
+func verifPoint(string) {}
